@@ -152,6 +152,17 @@ def oracle(ck, extended):
     # the channel axis at its extremes: counts beyond every power of two a blocked / chunked implementation would use
     for (order, Cn) in [(1, 33), (2, 33), (2, 40), (1, 65)] + ([] if q else [(2, 65), (1, 129), (2, 130)]):
         rt.guard(ck, oracle_layer, ck, order, 'near_sym_a', 'qshift_a', 1e-2, 0, npr.standard_normal((1, Cn, 8, 8)))
+    # images above every blocking / banding threshold (tall, wide, big both ways) with EVERY pairing of a level-1 family with a
+    # q-shift family (a short level-1 filter next to a long q-shift filter and the other way round), both layers
+    plain_b = ['near_sym_a', 'near_sym_b', 'antonini', 'legall']; plain_q = ['qshift_06', 'qshift_a', 'qshift_b', 'qshift_c', 'qshift_d']
+    cross = [(b_, q_) for b_ in plain_b for q_ in plain_q] + [('near_sym_b_bp', 'qshift_b_bp')]
+    tall = [(1, 1, 264, 16), (1, 2, 520, 8), (1, 1, 8, 520), (1, 1, 300, 24), (1, 1, 272, 264)] + ([] if q else [(1, 1, 1031, 8), (1, 3, 513, 16), (1, 1, 16, 1040), (2, 2, 600, 24)])
+    for k, (b_, q_) in enumerate(cross):
+        if q and k % 2:
+            continue
+        shp = tall[k % len(tall)]
+        rt.guard(ck, oracle_layer, ck, 2, b_, q_, 1e-2, 0, npr.standard_normal(shp))
+        rt.guard(ck, oracle_layer, ck, 1, b_, q_, 1e-2, 1 if shp[1] == 3 else 0, npr.standard_normal(tall[(k + 2) % len(tall)] if shp[1] != 3 else shp))
     n = (14 if q else 120) * (2 if extended else 1)
     for it in range(n):
         biort, qshift = rng.choice(FAMS)
